@@ -11,7 +11,7 @@ insertion order) and `Nodup` field names (Python dicts).  ℚ has no NaN: "NaN-f
 harness's obligation and is recorded in the evidence.
 -/
 import Bermuda.Lemmas.EqSet
-import Bermuda.Generated.Order
+import Bermuda.Generated.HashDeps
 namespace Bermuda.Properties.C02
 open Bermuda Std Bermuda.Properties.C01
 
@@ -247,16 +247,51 @@ theorem triHashKey_eq_of_triEq {a b : List Cell} {ka kb : List HKey}
   triHashKey_eq_of_triEq' (fun x hx => Cell.kindOk_of_datesOk (ha x hx))
     (fun x hx => Cell.kindOk_of_datesOk (hb x hx)) h h₁ h₂
 
-/-- tie to the source (regenerated on every run): the attributes read by the three `__hash__`
-methods are exactly the components of the model's hash keys -/
+/-! tie to the source, regenerated on every run by `harness/translate_c02.py`: the hash DEPENDENCY
+table, probed on the live objects (change exactly one component of random objects, observe whether
+`hash` changes).  No AST: a refactoring that keeps the behaviour keeps the table. -/
+
+/-- components of Metadata that `==` distinguishes (= components of `Metadata.hashKey`) -/
+def metaSensitive : List String :=
+  ["risk_basis", "country", "currency", "reinsurance_basis", "loss_definition", "per_occurrence_limit",
+   "details", "details_key", "loss_details", "loss_details_key"]
+
+/-- representation details of Metadata that `==` does not see (folded away in `Metadata.hashKey`) -/
+def metaInsensitive : List String :=
+  ["details_order", "details_number_type", "loss_details_order", "loss_details_number_type",
+   "per_occurrence_limit_number_type"]
+
+/-- components of a cell that `==` distinguishes (= components of `HKey`) -/
+def cellSensitive (incremental : Bool) : List String :=
+  ["period_start", "period_end", "evaluation_date"] ++
+  (if incremental then ["prev_evaluation_date"] else []) ++
+  metaSensitive.map ("metadata:" ++ ·) ++
+  ["value_scalar", "value_array_element", "value_array_length", "value_none_vs_zero", "field_name",
+   "field_added", "class_basis"]
+
+/-- what `==` does not see: dict orders, int vs float, int64 vs float64, Cell vs CumulativeCell -/
+def cellInsensitive (incremental : Bool) : List String :=
+  metaInsensitive.map ("metadata:" ++ ·) ++
+  ["values_order", "value_scalar_number_type", "value_array_dtype"] ++
+  (if incremental then [] else ["class_cell_vs_cumulative"])
+
+def hashRows (cls : String) (sens insens : List String) : List (String × String × String) :=
+  sens.map (fun c => (cls, c, "all")) ++ insens.map (fun c => (cls, c, "none"))
+
+def expectedHashDeps : List (String × String × String) :=
+  hashRows "Metadata" metaSensitive metaInsensitive ++
+  hashRows "Cell" (cellSensitive false) (cellInsensitive false) ++
+  hashRows "CumulativeCell" (cellSensitive false) (cellInsensitive false) ++
+  hashRows "IncrementalCell" (cellSensitive true) (cellInsensitive true)
+
+/-- **the implementation's hashes depend on every component that `==` distinguishes (every probe
+changed the hash) and on nothing else that was probed (no probe changed it)** — exactly the
+components of the model's hash keys. -/
 theorem tables_hash :
-    Generated.Order.metadataHashAttrs =
-      ["country", "currency", "details", "loss_definition", "loss_details", "per_occurrence_limit",
-       "reinsurance_basis", "risk_basis"] ∧
-    Generated.Order.cellHashAttrs =
-      ["__class__", "_evaluation_date", "_metadata", "_period_end", "_period_start", "_values"] ∧
-    Generated.Order.incrementalHashAttrs = ["_prev_evaluation_date"] := by
-  decide
+    Generated.HashDeps.ok = true ∧
+    (∀ r ∈ expectedHashDeps, r ∈ Generated.HashDeps.table) ∧
+    (∀ r ∈ Generated.HashDeps.table, r ∈ expectedHashDeps) := by
+  decide +kernel
 
 /-! ### 5. membership, subset, intersection, difference, disjointness agree with cell equality -/
 
